@@ -60,7 +60,7 @@ class C06(S4UCheck):
             for i in range(ncv):
                 ops.append(['notify_all', 'c%d' % i])
             plan['actors'].append(dict(id='z', host='h0', ops=ops))
-        gen.knobs(plan, r)
+        gen.knobs(plan, r, walk_p=0.35)
         return plan
 
     def oracle(self, plan, res):
